@@ -175,8 +175,9 @@ def histories(thorough):
               ['I 7 7 7 7 8 8', 'I 7 7 9 9', 'D k = 8', 'C', 'I 8 7', 'D k = 9', 'O', 'C', 'D k = 7'],
               ['I 1 2 3 4 5 6 7 8', 'D k < 3', 'I 9 10', 'D k = 9', 'O', 'I 11', 'C', 'O', 'D k > 6'],
               # a compaction pass that merges only some of the row-sets: the first row-set alone exceeds the target
-              # row-set size (step 'S 4096' sets it), the two small ones are merged; the big one must survive
-              ['S 4096', 'R 0 1300', 'I 5000 5001', 'I 5002 5003', 'C', 'D k = 7', 'I 6000', 'C', 'O', 'D k >= 5000'],
+              # row-set size (step 'S 4096' sets it), the two small ones are merged; the big one -- and the rows deleted from it
+              # before the pass -- must stay as they are
+              ['S 4096', 'R 0 1300', 'D k = 7', 'D k >= 100 and k < 110', 'I 5000 5001', 'I 5002 5003', 'C', 'D k = 9', 'I 6000', 'C', 'O', 'D k >= 5000'],
               # few distinct values: the compactor rewrites the columns with dictionary / run-length encoding
               ['I 7 7 7 7 7 7 8 8 8 8 8 8', 'I 7 7 7 7 8 8 8 8', 'D v = 3', 'C', 'D v = 14', 'I 8 8 7', 'O', 'C', 'D k = 7']]
     if thorough:
